@@ -51,7 +51,7 @@ def _valid_sources(rng):
 
 
 def _damage(rng, text, k):
-    kinds = ['biginit', 'longchain', 'litlocals', 'widestr', 'scratch', 'inhlong', 'incmacro', 'inclong', 'manystrings', 'bigprog', 'incself2', 'efunglobal', 'efunglobal', 'intmin', 'efunlocal', 'efunlocal', 'redeclare', 'redeclare', 'del', 'ins', 'dup', 'trunc', 'unstr', 'uncomment', 'untext', 'unlit', 'if', 'endif', 'else', 'defself', 'defmutual', 'macroargs', 'incself', 'incmissing',
+    kinds = ['manyoverride', 'biginit', 'longchain', 'litlocals', 'widestr', 'scratch', 'inhlong', 'incmacro', 'inclong', 'manystrings', 'bigprog', 'incself2', 'efunglobal', 'efunglobal', 'intmin', 'efunlocal', 'efunlocal', 'redeclare', 'redeclare', 'del', 'ins', 'dup', 'trunc', 'unstr', 'uncomment', 'untext', 'unlit', 'if', 'endif', 'else', 'defself', 'defmutual', 'macroargs', 'incself', 'incmissing',
              'incdeep', 'litdeep', 'locals', 'args', 'strings', 'funcs', 'longline', 'longident', 'longstr', 'dupfun', 'conflict', 'random', 'nul', 'high', 'inhmissing', 'inhlate', 'superunknown', 'defprobe', 'pragma', 'unlit3', 'unlit3', 'iffatal']
     kind = rng.choice(kinds)
     if os.environ.get('C02_ONLY_KIND'): kind = os.environ['C02_ONLY_KIND']
@@ -78,6 +78,16 @@ def _damage(rng, text, k):
     elif kind == 'bigprog':
         nf = rng.choice((20, 40)); per = rng.choice((250, 450))
         t = text + ''.join('\nint zbig%d(int i) {\n%s return i; }' % (f, ''.join(' i = i + %d;\n' % (12345 + j) for j in range(per))) for f in range(nf)) + '\nint zlast() { return zbig%d(1); }\n' % (nf - 1)
+    elif kind == 'manyoverride':
+        # a program that redefines hundreds of the functions it inherits (and leaves at least one of them alone): the
+        # compiler's table of "functions taken over unchanged" has 8-bit indexes
+        m = rng.choice((200, 254, 255, 256, 257, 300)); own = rng.choice((0, 2, 40))
+        t = 'inherit "/x/big300";\n' + ''.join('int bf%d() { return %d; }\n' % (j, 1000 + j) for j in range(m)) + ''.join('int zown%d() { return bf%d() + zlast(); }\n' % (j, j % m) for j in range(own))
+        # (and it has to be the right program: own, redefined and inherited functions on both sides of the 255th, through local calls
+        # and - by name - from outside; the expected answer travels in a comment that gen() reads)
+        probe = [0, 1, 253, 254, 255, 256, 257, 298, 299]
+        t += 'string zchk() { return "" + %s + "," + zlast(); }\n' % ' + "," + '.join('bf%d()' % j for j in probe)
+        t += '// ZCHK=%s,7\n' % ','.join(str(1000 + j if j < m else j) for j in probe)
     elif kind == 'biginit':
         # a "data table" object: far more code in the initialisers of global variables than in functions (the initialiser
         # block is appended to the program in one piece at the end of the compilation)
@@ -210,6 +220,7 @@ def gen(rng, tier, i):
     for name, text in sorted(files.items()): p.file(name, text)
     p.file('x/utf.c', 'string zu() { return "\\xff\\xfe\\x80"; }\n')     # a plain string whose bytes are no valid UTF-8: legal, whatever was compiled before
     p.file('x/self2.h', '#include "/x/self2.h"\n#include "/x/self2.h"\n')
+    p.file('x/big300.c', ''.join('int bf%d() { return %d; }\n' % (j, j) for j in range(300)) + 'int zlast() { return 7; }\n')
     for d in range(12): p.file('x/deep%d.h' % d, '#include "/x/deep%d.h"\n' % (d + 1) if d < 11 else 'int zdeep;\n')
     p.cycle(connect(0, 0))
     p.cycle(send(0, 'do name u0;%scomp p0 /probe\r\n' % ('load /x/lhelp;' if helper else '')))
@@ -239,6 +250,10 @@ def gen(rng, tier, i):
         elif r < 0.47: steps.append(fault(rng.choice((0, 0, 0, 1)), 'compileroom:%d' % rng.choice((0, 1, 2, 3, 4, 6))))
         steps.append(send(0, 'do comp %d %s\r\n' % (k, target)))
         p.cycle(*steps)
+        mz = re.search(r'// ZCHK=(\S+)', t) if kind == 'manyoverride' else None
+        if mz:
+            p.cycle(send(0, 'do xsco z%d %s zchk\r\n' % (k, target)))
+            p.meta.setdefault('zchk', {})['z%d' % k] = mz.group(1)
         p.cycle('fsopt 0 -1', 'fault -1 error', send(0, 'do comp u%d /x/utf;comp p%d /probe\r\n' % (k + 1, k + 1)))
         p.cycle(send(0, 'do xco p%d /probe run;pinfo /probe;xreload /probe\r\n' % (k + 1)))
     p.idle(1)
@@ -277,6 +292,13 @@ def check(plan, res):
                 if ok and hardc and not read_fault:
                     bad('outcome', 'compilation %s (%s) reported the compile error %r and yielded an object all the same' % (cid, kd, hardc[0][:120]), 'outcome/loaded-despite-error')
             pending_errs = []
+    for e in res.events:
+        if e.kind == 'R' and e.rest.startswith('XR z'):
+            w = e.rest.split(' ')
+            want = (plan.meta.get('zchk') or {}).get(w[1])
+            if want and len(w) > 2 and w[2] != want and not w[2].startswith('err:'):
+                bad('program', 'a program that redefines hundreds of inherited functions answers %s where its source says %s' % (w[2][:80], want), 'outcome/wrong-program-many-overrides')
+                break
     for e in res.events:
         if e.kind == 'R' and e.rest.startswith('COMP u') and ' ok=0' in e.rest:
             bad('probe', 'a file with a plain string literal of non-UTF-8 bytes no longer compiles: %s' % e.rest[:160], 'probe/plain-string-refused')
